@@ -149,7 +149,7 @@ theorem startCall_est (ps : PSet) (hwf : WF ps) : EstInv (startCall ps .establis
 
 /-! ### the loop stays usable for the live protocols -/
 
-theorem negCount_pos (subs : List Sub) (k : Nat) (x : Sub) (hk : subs[k]? = some x) (hx : x.stage = .negotiating) :
+theorem negCount_pos (subs : List Sub) (k : Nat) (x : Sub) (hk : subs[k]? = some x) (hx : x.stage.pending = true) :
     0 < negCount subs := by
   unfold negCount
   apply List.length_pos_of_mem (a := x)
@@ -194,7 +194,7 @@ theorem negOk_live (s : TLoop) (hr : s.running = true) (k p : Nat) (x : Sub)
   obtain ⟨h1, h2⟩ := (running_iff s).mp hr
   have hnr : ¬ s.running = false := by simp [hr]
   have h3 : ¬ x.stage ≠ .negotiating := by simp [hx]
-  have hpend : negCount s.subs ≠ 0 := by have := negCount_pos s.subs k x hk hx; omega
+  have hpend : negCount s.subs ≠ 0 := by have := negCount_pos s.subs k x hk (by rw [hx]; rfl); omega
   unfold protoAlive at hp
   cases hc : s.loop.ps.chans[p]? with
   | none => rw [hc] at hp; cases hp
